@@ -980,7 +980,13 @@ class ReadParquetPyarrowFS(ReadParquet):
 
         dataset_info["dataset"] = dataset
         dataset_info["schema"] = dataset.schema
-        dataset_info["base_meta"] = dataset.schema.empty_table().to_pandas()
+        meta = dataset.schema.empty_table().to_pandas()
+        # The column of the files that holds the index: to_parquet stores an
+        # unnamed index as NONE_LABEL
+        dataset_info["index_name"] = meta.index.name
+        if meta.index.name == NONE_LABEL:
+            meta.index.name = None
+        dataset_info["base_meta"] = meta
         self.operands[
             type(self)._parameters.index("_dataset_info_cache")
         ] = dataset_info
@@ -998,7 +1004,7 @@ class ReadParquetPyarrowFS(ReadParquet):
         argsort
         """
         if self.calculate_divisions and self.index is not None:
-            index_name = self.index.name
+            index_name = self._dataset_info["index_name"]
             return _divisions_from_statistics(self.aggregated_statistics, index_name)
         return tuple([None] * (len(self.fragments_unsorted) + 1)), None
 
@@ -1082,9 +1088,7 @@ class ReadParquetPyarrowFS(ReadParquet):
 
     def _filtered_task(self, index: int):
         columns = self.columns.copy()
-        index_name = self.index.name
-        if self.index is not None:
-            index_name = self.index.name
+        index_name = self._dataset_info["index_name"]
         schema = self._dataset_info["schema"].remove_metadata()
         if index_name:
             if columns is None:
@@ -1160,6 +1164,8 @@ class ReadParquetPyarrowFS(ReadParquet):
         )
         if index_name is not None:
             df = df.set_index(index_name)
+            if index_name == NONE_LABEL:
+                df.index.name = None
         return df
 
 
